@@ -757,6 +757,14 @@ pub fn gen_struct(rng: &mut Rng, class: Class) -> Item {
                     0 if !repeat_open => {
                         attrs.push(rng.pick(&["repeat", "repeat(map)", "repeat(map, ghost)", "repeat(child, parent)"]).to_string());
                         repeat_open = true;
+                        // a repeat is there to carry instructions over: the member that opens it
+                        // often has several, of overlapping kinds (from + map + from_owned ...)
+                        if rng.chance(1, 2) {
+                            let k = rng.range(2, 3);
+                            for _ in 0..k {
+                                attrs.push(member_instr(rng, &cps, named_cp, i, fallible_any));
+                            }
+                        }
                     },
                     1 if repeat_open => attrs.push("skip_repeat".into()),
                     2 if repeat_open => {
